@@ -44,7 +44,8 @@ def run(c):
             if k < len(deps):     # the dependency stays broken: the calls made after the fault (cleanup) fail as well
                 runs.append(scen("%s/%s/%d-persist" % (a, v, k), a, v, k, persist=True))
             if d == "file.Write":
-                runs.append(scen("%s/%s/%d-short" % (a, v, k), a, v, k, "short"))
+                for sk in ("short", "short1", "short4"):
+                    runs.append(scen("%s/%s/%d-%s" % (a, v, k, sk), a, v, k, sk))
             if d == "file.Read":
                 runs.append(scen("%s/%s/%d-partial-error" % (a, v, k), a, v, k, "partial-error"))
                 runs.append(scen("%s/%s/%d-partial" % (a, v, k), a, v, k, "partial"))
